@@ -113,7 +113,7 @@ SameKindOutcomes(needs, uf, ut, units, vecOf(_,_)) ==
         \* units are ignored; an unknown string may be refused
         {Val(Zero)} \cup (IF (uf \notin {N} \cup units) \/ (ut \notin {N} \cup units) THEN {PE} ELSE {})
    ELSE IF Falsy(ut) THEN {PE, Val(Zero)}
-   ELSE IF ut = uf THEN (IF uf \in units THEN {Val(Zero)} ELSE {PE, Val(Zero)})
+   ELSE IF ut = uf THEN (IF uf \in units THEN {Val(Zero)} ELSE {PE})     \* an unknown unit is refused even as an identity
    ELSE IF uf \in units /\ ut \in units THEN {Val(vecOf(uf, ut))}
    ELSE {PE}
 
@@ -211,9 +211,9 @@ ImplLoading(f, t, m) ==
           IF BadBasis(m[1], MBases) \/ BadUnit(m[2], MUnits(m[1])) THEN PE
           ELSE Val(ImplLVec(f, t, m))
      ELSE Val(ImplLVec(f, t, m))
-  ELSE IF ~Falsy(t[2]) /\ f[2] # t[2] /\ ~Frac(f[1]) THEN
-     IF BadUnit(t[2], LUnits(f[1])) \/ BadUnit(f[2], LUnits(f[1])) THEN PE
-     ELSE Val(ImplLVec(f, t, m))
+  ELSE IF ~Falsy(t[2]) /\ ~Frac(f[1]) THEN
+     IF f[2] # t[2] THEN (IF BadUnit(t[2], LUnits(f[1])) \/ BadUnit(f[2], LUnits(f[1])) THEN PE ELSE Val(ImplLVec(f, t, m)))
+     ELSE IF BadUnit(t[2], LUnits(f[1])) THEN PE ELSE Val(Zero)
   ELSE Val(Zero)
 
 MConst(bf, bt) ==
@@ -235,8 +235,9 @@ ImplMaterial(f, t) ==
   IF BadBasis(f[1], MBases) \/ BadBasis(t[1], MBases) THEN PE
   ELSE IF f[1] # t[1] THEN
      IF BadUnit(t[2], MUnits(t[1])) \/ BadUnit(f[2], MUnits(f[1])) THEN PE ELSE Val(ImplMVec(f, t))
-  ELSE IF ~Falsy(t[2]) /\ f[2] # t[2] THEN
-     IF BadUnit(t[2], MUnits(f[1])) \/ BadUnit(f[2], MUnits(f[1])) THEN PE ELSE Val(ImplMVec(f, t))
+  ELSE IF ~Falsy(t[2]) THEN
+     IF f[2] # t[2] THEN (IF BadUnit(t[2], MUnits(f[1])) \/ BadUnit(f[2], MUnits(f[1])) THEN PE ELSE Val(ImplMVec(f, t)))
+     ELSE IF BadUnit(t[2], MUnits(f[1])) THEN PE ELSE Val(Zero)
   ELSE Val(Zero)
 
 \* An Impl outcome conforms when the prescriptive set contains it (values compared in the quotient)
